@@ -65,6 +65,56 @@ static void build_inputs(void) {
     }
 }
 
+/* large inputs (above the library's 10000-element sampling threshold), used by the op_large_* operations only */
+#define NLARGE 10500
+static uint64_t INL[2][NLARGE];
+static void build_large_inputs(void) {
+    for (size_t i = 0; i < NLARGE; i++) {
+        /* every 10th element equal (what a stride-10 sample sees is constant), the rest scattered over 3000 values */
+        INL[0][i] = (i % 10 == 0) ? 7 : 100 + (i * 2654435761ULL) % 3000;
+        INL[1][i] = (i * 2654435761ULL) % 100000;
+    }
+}
+static uint8_t ENCL[NLARGE * 10 + 4096];
+static uint64_t DECL[NLARGE + 16];
+
+/* ---------------------------------------------------------------- environment seam
+ * Process-global sources of hidden state in libc are owned by the harness: the library is linked against these
+ * definitions, so a call to one of them is (a) counted and (b) answered from a stream the harness chooses. Stream 0
+ * is the baseline; a run under stream 1 must give the same observations, and so must a call made after other calls
+ * have advanced the stream. */
+static int ENV_STREAM = 0;
+static uint64_t env_state = 0x853c49e6748fea9bULL;
+static uint64_t env_calls = 0;
+static uint64_t env_next(void) {
+    env_calls++;
+    env_state = env_state * 6364136223846793005ULL + 1442695040888963407ULL + (uint64_t)ENV_STREAM * 0x9e3779b97f4a7c15ULL;
+    return env_state >> 20;
+}
+#ifndef VH_MSAN
+int rand(void) { return (int)(env_next() & 0x7fffffff); }
+long random(void) { return (long)(env_next() & 0x7fffffff); }
+void srand(unsigned seed) {
+    (void)seed;
+    env_next();
+}
+void srandom(unsigned seed) {
+    (void)seed;
+    env_next();
+}
+long lrand48(void) { return (long)(env_next() & 0x7fffffff); }
+long mrand48(void) { return (long)(int32_t)env_next(); }
+double drand48(void) { return (double)(env_next() & 0xfffffff) / (double)0x10000000; }
+time_t time(time_t *t) {
+    time_t v = (time_t)(1700000000 + (env_next() & 0xffffff));
+    if (t) {
+        *t = v;
+    }
+    return v;
+}
+clock_t clock(void) { return (clock_t)(env_next() & 0xffffff); }
+#endif
+
 static uint8_t ENC[8192], ENC2[8192];
 static uint64_t DEC[200];
 /* prior contents of the caller's output buffers: part of the environment, not of the arguments. The baseline uses
@@ -574,6 +624,76 @@ static void op_dimension_loaded(obuf *o, const uint64_t *v, size_t n, int arg) {
     o_bytes(o, MAT, 2 + (size_t)(R * C) * ew);
 }
 
+static uint64_t fnv(const void *p, size_t n) {
+    const uint8_t *b = (const uint8_t *)p;
+    uint64_t h = 1469598103934665603ULL;
+    for (size_t i = 0; i < n; i++) {
+        h = (h ^ b[i]) * 1099511628211ULL;
+    }
+    return h;
+}
+static void op_large(obuf *o, const uint64_t *unused, size_t unused_n, int arg) {
+    /* arg: low bit = which large input; arg >> 1: 0 adaptive analysis + auto encode, 1 PFOR, 2 dict, 3 FOR/RLE/BP128 */
+    (void)unused;
+    (void)unused_n;
+    const uint64_t *v = INL[arg & 1];
+    size_t n = NLARGE, w = 0, r = 0;
+    memset(ENCL, FILL_ENC, sizeof ENCL);
+    memset(DECL, FILL_DEC, sizeof DECL);
+    switch (arg >> 1) {
+    case 0: {
+        varintAdaptiveDataStats st;
+        memset(&st, 0, sizeof st);
+        varintAdaptiveAnalyze(v, n, &st);
+        o_u64(o, st.uniqueCount);
+        o_u64(o, st.range);
+        o_u64(o, st.avgDelta);
+        o_u64(o, (uint64_t)varintAdaptiveSelectEncoding(&st));
+        o_u64(o, varintAdaptiveCountUnique(v, n));
+        varintAdaptiveMeta m;
+        memset(&m, 0, sizeof m);
+        w = varintAdaptiveEncode(ENCL, v, n, &m);
+        o_u64(o, (uint64_t)m.encodingType);
+        r = varintAdaptiveDecode(ENCL, DECL, n, NULL);
+        break;
+    }
+    case 1: {
+        varintPFORMeta m, d;
+        memset(&m, 0, sizeof m);
+        memset(&d, 0, sizeof d);
+        w = varintPFOREncode(ENCL, v, (uint32_t)n, 95, &m);
+        o_u64(o, m.exceptionCount + m.thresholdValue);
+        r = varintPFORDecode(ENCL, DECL, &d);
+        break;
+    }
+    case 2:
+        o_u64(o, varintDictEncodedSize(v, n));
+        w = varintDictEncode(ENCL, v, n);
+        r = w ? varintDictDecodeInto(ENCL, w, DECL, n) : 0;
+        break;
+    default: {
+        varintFORMeta fm;
+        memset(&fm, 0, sizeof fm);
+        w = varintFOREncode(ENCL, v, n, &fm);
+        o_u64(o, fnv(ENCL, w));
+        varintRLEMeta rm;
+        memset(&rm, 0, sizeof rm);
+        o_u64(o, (uint64_t)varintRLEAnalyze(v, n, &rm));
+        o_u64(o, rm.runCount + rm.uniqueValues);
+        varintBP128Meta bm;
+        memset(&bm, 0, sizeof bm);
+        w = varintBP128Encode64(ENCL, v, n, &bm);
+        r = varintBP128Decode64(ENCL, DECL, n);
+        break;
+    }
+    }
+    o_u64(o, w);
+    o_u64(o, r);
+    o_u64(o, fnv(ENCL, w));
+    o_u64(o, fnv(DECL, n * 8));
+    o_bytes(o, ENCL, w > 600 ? 600 : w);
+}
+
 typedef struct {
     const char *name;
     opfn fn;
@@ -647,6 +767,13 @@ static void build_ops(void) {
     add("dimension.loaded u16 matrix 6x9", op_dimension_loaded, 2, 4, 0);
     add("dimension.loaded double matrix 3x7", op_dimension_loaded, 3 | 4, 4, 0);
     add("dimension.loaded double matrix 4x10", op_dimension_loaded, 0 | 4, 4, 0);
+    /* 10500-element inputs (input index is irrelevant for them: they read INL) */
+    add("large adaptive analyse+encode [stride-10 constant]", op_large, 0, 1, 0);
+    add("large adaptive analyse+encode [scattered]", op_large, 1, 1, 0);
+    add("large PFOR [stride-10 constant]", op_large, 2, 1, 0);
+    add("large dict [stride-10 constant]", op_large, 4, 1, 0);
+    add("large dict [scattered]", op_large, 5, 1, 0);
+    add("large FOR/RLE/BP128 [scattered]", op_large, 7, 1, 0);
 }
 
 static void run_op(int i, obuf *o) {
@@ -668,7 +795,7 @@ __attribute__((noinline)) static void paint_stack(uint64_t word) {
 /* ---------------------------------------------------------------- baselines via exec */
 static obuf *BASE; /* NOPS entries */
 
-static int exec_baseline(const char *self, int i, obuf *out) {
+static int exec_baseline_env(const char *self, int i, int env, obuf *out) {
     int fd[2];
     if (pipe(fd)) {
         return -1;
@@ -677,9 +804,10 @@ static int exec_baseline(const char *self, int i, obuf *out) {
     if (pid == 0) {
         dup2(fd[1], 1);
         close(fd[0]);
-        char num[16];
+        char num[16], envs[16];
         snprintf(num, sizeof num, "%d", i);
-        execl(self, self, "--one-op", num, (char *)NULL);
+        snprintf(envs, sizeof envs, "%d", env);
+        execl(self, self, "--one-op", num, envs, (char *)NULL);
         _exit(127);
     }
     close(fd[1]);
@@ -700,6 +828,8 @@ static int exec_baseline(const char *self, int i, obuf *out) {
     }
     return 0;
 }
+
+static int exec_baseline(const char *self, int i, obuf *out) { return exec_baseline_env(self, i, 0, out); }
 
 /* ---------------------------------------------------------------- child execution */
 typedef struct {
@@ -770,11 +900,14 @@ static void compare(const int *hist, int nh, const char *how) {
 
 int main(int argc, char **argv) {
     build_inputs();
+    build_large_inputs();
     build_ops();
-    /* child mode: run one op, dump observations */
-    if (argc == 3 && !strcmp(argv[1], "--one-op")) {
+    /* child mode: run one op, dump observations (optional 4th argument: environment stream) */
+    if ((argc == 3 || argc == 4) && !strcmp(argv[1], "--one-op")) {
         static obuf o;
+        ENV_STREAM = argc == 4 ? atoi(argv[3]) : 0;
         run_op(atoi(argv[2]), &o);
+        o.overflow |= env_calls ? 0x100 : 0; /* bit 8: the operation consulted the environment */
         size_t n = sizeof(uint32_t) * 2 + o.len;
         if (write(1, &o, n) != (ssize_t)n) {
             return 2;
@@ -798,6 +931,40 @@ int main(int argc, char **argv) {
         }
     }
     vh_infostr("operations", "%d", NOPS);
+    /* environment: every operation once more in a fresh process under the other answer stream of the environment seam
+     * (rand/random/drand48/time/clock ...): the observations must not change */
+    if (vh_section_begin("environment")) {
+        static obuf alt;
+        int consulted = 0;
+        for (int i = 0; i < NOPS; i++) {
+            if (!vh_case()) {
+                continue;
+            }
+            for (int env = 1; env <= 2; env++) {
+                memset(&alt, 0, sizeof alt);
+                if (exec_baseline_env(self, i, env, &alt)) {
+                    vh_fail(OPS[i].name, "crash", "untagged", "operation fails in a fresh process under environment stream %d", env);
+                    continue;
+                }
+                consulted |= (alt.overflow & 0x100) != 0;
+                if (alt.len != BASE[i].len || memcmp(alt.b, BASE[i].b, alt.len)) {
+                    size_t at = 0;
+                    while (at < alt.len && at < BASE[i].len && alt.b[at] == BASE[i].b[at]) {
+                        at++;
+                    }
+                    vh_fail(OPS[i].name, "result_depends_on_environment", "untagged", "%s[input %d]: the same call in a fresh process gives different observations (first at byte %zu) when libc's hidden state (rand/random/time/clock) answers from stream %d instead of stream 0", OPS[i].name, OPS[i].input, at, env);
+                    break;
+                }
+                vh_count("cases", 1);
+                vh_count("calls", 1);
+            }
+            if (BASE[i].overflow & 0x100) {
+                consulted = 1;
+            }
+        }
+        vh_count("operations_consulting_the_environment", (uint64_t)consulted);
+        vh_class("environment/streams", "%d operations x 2 alternative streams", NOPS);
+    }
     int msan = 0;
 #ifdef VH_MSAN
     msan = 1;
